@@ -143,6 +143,7 @@ impl Gen {
         }
         let top = self.model.top.clone();
         self.model.steps = 0;
+        self.model.poisoned.clear();
         let r = self.model.eval(&top, &ex);
         match r {
             Err(Ctl::Unknown(m)) => {
